@@ -135,6 +135,58 @@ def op_task(t):
     return dict(op=op, n=n, distinct=len(distinct), violations=viols, sample=sample)
 
 
+def lookalike(body):
+    """the name that equals the literal encoding of a script body"""
+    return "{%d+}\r\n%s" % (len(body.encode("utf-8")), body)
+
+
+def pair_task(t):
+    """two calls in one process that share octets: a script body sent as content, and a NAME equal to that body's literal
+    encoding (and the other way round); neither call may change how the other is written (no cross-call memo keyed on the octets)"""
+    if t[0] == "one":
+        bodies = [t[1]]
+    else:
+        lo, hi, maxlen = t
+        bodies = [v for v in values(maxlen) if _encodable([v])][lo:hi]
+    viols = []
+    n = 0
+    cur = [None]
+
+    def one(tag, op, args, expected):
+        nonlocal n
+        srv = refms.RefServer(store={"a": b"keep;\r\n"}, active="a", version=True)
+        s = wire.open_session(srv)
+        m = wire.mark(s)
+        o = s.call(op, *args)
+        data = wire.written_since(s, m)
+        n += 1
+        bad = judge(op, expected, data, o)
+        if bad:
+            viols.append({"property": "C08", "engine": "wire", "signature": ["C08", op, "pair:" + tag, bad[0]],
+                          "what": "%s: %s%r wrote %r: %s" % (tag, op, args if len(repr(args)) < 80 else "(long)", data[:80], bad[1]),
+                          "case": {"pair": tag, "pair_body": cur[0], "op": op, "args": list(args)},
+                          "witness": "%s then %s%r" % (tag, op, args), "observed": repr(data[:100])})
+
+    for v in bodies:
+        cur[0] = v
+        # body first, then the look-alike name in every name position
+        one("body-first/content", "putscript", ("s", v), ["s", v])
+        one("body-first/content", "checkscript", (v,), [v])
+        lk = lookalike(v)
+        for op in ("deletescript", "getscript", "setactive"):
+            one("body-first/name", op, (lk,), [lk])
+        one("body-first/name", "renamescript", (lk, "b"), [lk, "b"])
+        one("body-first/name", "putscript", (lk, "keep;"), [lk, "keep;"])
+        # name first (a body never sent before in this process), then the body
+        w = v + "#"
+        lk = lookalike(w)
+        one("name-first/name", "getscript", (lk,), [lk])
+        one("name-first/name", "havespace", (lk, 10), [lk, 10])
+        one("name-first/content", "checkscript", (w,), [w])
+        one("name-first/content", "putscript", ("s", w), ["s", w])
+    return dict(op="pairs", n=n, distinct=1, violations=viols, sample=None)
+
+
 def sweep_task(t):
     """every content / name length in a window: command lengths land on every residue of any power-of-two block size"""
     op, lo, hi = t
@@ -177,6 +229,8 @@ def run(tier, seed):
         for lo in range(0, top if op != "deletescript-escaped" else 3000, 500):
             sw.append((op, lo, min(top, lo + 500)))
     res += pool.run_tasks("checks.c08:sweep_task", sw, chunksize=2)
+    nb = len([v for v in values(maxlen - 1) if _encodable([v])])
+    res += pool.run_tasks("checks.c08:pair_task", [(lo, lo + 16, maxlen - 1) for lo in range(0, nb, 16)])
     n = sum(r["n"] for r in res)
     viols = []
     for r in res:
@@ -197,6 +251,9 @@ def replay(payload):
     if "sweep_len" in c:
         r = sweep_task((op, c["sweep_len"], c["sweep_len"] + 1))
         return r["violations"]
+    if c.get("pair"):
+        r = pair_task(("one", c["pair_body"]))
+        return [v for v in r["violations"] if v["signature"][:3] == payload["signature"][:3]]
     args = tuple(c["args"])
     expected = list(args)
     srv = refms.RefServer(store={"a": b"keep;\r\n"}, active="a", version=True)
